@@ -7,6 +7,8 @@ env = dict(os.environ, GOFLAGS="-mod=mod", GOPROXY="off", GOSUMDB="off", GOTOOLC
 meta = json.load(open(os.path.join(mdir, "meta.json")))
 m = re.search(r"-run (\S+) (\S+)", meta["demo_cmd"])
 pat, pkg = m.group(1), m.group(2)
+mt = re.search(r"-tags (\S+)", meta["demo_cmd"])
+tags = ("-tags " + mt.group(1) + " ") if mt else ""
 dest = meta["demo_dir"].split()[0]
 demo_dst = os.path.join(wt, dest, "zz_seeded_demo_test.go")
 def sh(cmd, **kw):
@@ -16,10 +18,10 @@ def clean():
     sh("git checkout -- . && rm -f " + demo_dst)
 clean()
 shutil.copy(os.path.join(mdir, "demo_test.go"), demo_dst)
-rc0, out0 = sh("go test -vet=off -count=1 -run '%s' %s" % (pat, pkg))
+rc0, out0 = sh("go test %s-vet=off -count=1 -run '%s' %s" % (tags, pat, pkg))
 rc, out = sh("git apply " + os.path.join(mdir, "patch.diff"))
 assert rc == 0, out
-rc1, out1 = sh("go test -vet=off -count=1 -run '%s' %s" % (pat, pkg))
+rc1, out1 = sh("go test %s-vet=off -count=1 -run '%s' %s" % (tags, pat, pkg))
 os.remove(demo_dst)
 rcbuild, _ = sh("go build $(go list ./... | grep -v /out/)")
 rcb, outb = sh("go test -vet=off -count=1 $(go list ./... | grep -v /out/) 2>&1 | grep -E '^(FAIL|--- FAIL|panic)' | head -20")
@@ -35,6 +37,6 @@ os.makedirs(d, exist_ok=True)
 shutil.copy(os.path.join(mdir, "patch.diff"), d)
 shutil.copy(os.path.join(mdir, "demo_test.go"), d)
 meta.update({"property": prop, "confirmed": "in scratch worktree %s: demo passes on clean HEAD, fails with patch.diff applied; go build ./... and the full unedited suite (go test -vet=off -count=1 ./...) pass with the patch" % wt,
-             "demo_install": "copy demo_test.go into %s/ and run: go test -vet=off -count=1 -run '%s' %s" % (dest, pat, pkg)})
+             "demo_install": "copy demo_test.go into %s/ and run: go test %s-vet=off -count=1 -run '%s' %s" % (dest, tags, pat, pkg)})
 json.dump(meta, open(os.path.join(d, "meta.json"), "w"), indent=1)
 print("archived", d)
